@@ -332,21 +332,10 @@ impl TestRunner {
         let opcode = self.ram.read().unwrap().ram[self.cpu.get_program_counter() as usize];
         match opcode {
             0x20 => {
-                // jsr
-                let wait_until_pc = self.cpu.get_program_counter() + 3;
-                loop {
-                    let result = self.execute_instruction()?;
-
-                    if self.cpu.get_program_counter() == wait_until_pc {
-                        return Ok(result);
-                    }
-
-                    match result {
-                        ExecuteResult::Running => {}
-                        result => {
-                            return Ok(result);
-                        }
-                    }
+                // jsr: enter the subroutine, then run until it returns
+                match self.execute_instruction()? {
+                    ExecuteResult::Running => self.run_until_return(),
+                    result => Ok(result),
                 }
             }
             _ => self.execute_instruction(),
@@ -359,8 +348,13 @@ impl TestRunner {
             return Ok(ExecuteResult::Running);
         }
 
-        // Run until the subroutine we are in returns. The calls it makes on the way are counted, so the 'rts'
-        // that ends the run is its own, whatever it has pushed on the stack in the meantime
+        self.run_until_return()
+    }
+
+    /// Runs until the subroutine we are in returns. The calls it makes on the way are counted, so the 'rts'
+    /// that ends the run is its own, whatever it has pushed on the stack in the meantime and even when it
+    /// calls itself
+    fn run_until_return(&mut self) -> MosResult<ExecuteResult> {
         let mut nested_calls = 0;
         loop {
             let opcode = self.ram.read().unwrap().ram[self.cpu.get_program_counter() as usize];
